@@ -20,7 +20,7 @@ import re
 from vlib import hexs
 
 CRASH = ("PANIC", "ABORT", "HANG")
-WATCHDOG_MS = 20000
+WATCHDOG_MS = 10000
 
 
 def w(case, ms=WATCHDOG_MS):
@@ -37,7 +37,7 @@ def crashed(o):
     return o in CRASH or "RUNAWAY" in o
 
 
-def judge(ctx, prof, cases, impl, bad_prefixes=("BAD", "REUSE-MISMATCH", "JSON-ENTRY-MISMATCH", "FROMSTR-MISMATCH")):
+def judge(ctx, prof, cases, impl, bad_prefixes=("BAD", "BADUTF8", "REUSE-MISMATCH", "JSON-ENTRY-MISMATCH", "FROMSTR-MISMATCH")):
     base = len(impl) - len(cases)
     for k, c in enumerate(cases):
         o = impl[base + k]
@@ -49,6 +49,24 @@ def judge(ctx, prof, cases, impl, bad_prefixes=("BAD", "REUSE-MISMATCH", "JSON-E
             ctx.fail("api-" + kind, "%s build: %s on %s" % (prof, o, c[:200].replace("\t", " ")), [c], [o], "OK .. / ERR")
         elif o in ("NOKIND", "BADCASE"):
             ctx.fail("harness-" + kind, "harness does not know the case %s" % c[:120].replace("\t", " "), [c], [o], "a result")
+
+
+def guarded(ctx, stream, cases, prof, **kw):
+    """ctx.correspond preceded by a pilot (every 41st case): when the pilot alone already shows several hangs / aborts the
+    full stream is skipped for this profile -- a change that hangs on a large share of the inputs would otherwise cost
+    WATCHDOG_MS per case.  The pilot's failures are reported (key crash-<kind>) with their replay inputs."""
+    pilot = cases[::41]
+    impl, _ = ctx.correspond(stream + "_pilot", pilot, profile=prof, model=False, nontrivial=lambda c, i: False)
+    got = impl[len(impl) - len(pilot):]
+    dead = [(c, o) for c, o in zip(pilot, got) if o in ("ABORT", "HANG")]
+    if len(dead) >= 3:
+        for c, o in dead:
+            ctx.fail("crash-" + inner_kind(c), "%s build: %s on %s  (pilot run; %d of %d pilot cases died, the full stream %s was skipped; ABORT = process "
+                     "abort, stack overflow or the %d ms per-case watchdog, i.e. a hang)" % (prof, o, c[:200].replace("\t", " "), len(dead), len(pilot), stream, WATCHDOG_MS),
+                     [c], [o], "a value or an error")
+        ctx.count("hang_storm_" + stream)
+        return None
+    return ctx.correspond(stream, cases, profile=prof, **kw)
 
 
 # ------------------------------------------------------------------ inputs
@@ -149,6 +167,36 @@ def typed_text_cases(rng, d):
     return out
 
 
+def writer_calls_case(rng):
+    """a random call history of the text writer with adversarial byte payloads and any indent configuration"""
+    def payload():
+        r = rng.random()
+        if r < 0.3:
+            return bytes(rng.randrange(256) for _ in range(rng.randrange(0, 12)))
+        if r < 0.6:
+            return bytes(rng.choice(b'{}="\\#= \n\t[]@a1') for _ in range(rng.randrange(0, 10)))
+        return rng.choice([b"", b"a", b"\n", b"\n\n", b'"', b"\\", b'a"b', b"a b", b"x" * 40, b"\xff\xfe", b"rgb", b"{", b"}"])
+    calls = []
+    for _ in range(rng.randrange(1, 14)):
+        k = rng.choice(["u", "u", "q", "q", "h", "op", "s", "os", "as", "e", "e", "b", "i32", "u64", "m", "rgb"])
+        if k in ("u", "q", "h"):
+            calls.append("%s:%s" % (k, hexs(payload())))
+        elif k == "op":
+            calls.append("op:%d" % rng.randrange(8))
+        elif k == "b":
+            calls.append("b:%d" % rng.randrange(2))
+        elif k == "i32":
+            calls.append("i32:%d" % rng.choice([0, -1, 2147483647, -2147483648, rng.randrange(-99, 99)]))
+        elif k == "u64":
+            calls.append("u64:%d" % rng.choice([0, 18446744073709551615, rng.randrange(1 << 40)]))
+        elif k == "rgb":
+            calls.append("rgb:%d:%d:%d" % (rng.randrange(256), rng.randrange(256), rng.randrange(256)) + (":%d" % rng.randrange(256) if rng.random() < 0.3 else ""))
+        else:
+            calls.append(k)
+    cfg = "%s,%s,r" % (rng.choice(["d", "32", "9", "0", "255", str(rng.randrange(256))]), rng.choice(["d", "0", "1", "2", "4", "17", "255"]))
+    return "writer.calls\t%s\t%s" % (cfg, ";".join(calls))
+
+
 def trops_case(rng, d):
     """mixed call sequence on one text reader; schedules with faults; small buffers"""
     n = len(d)
@@ -221,6 +269,10 @@ def run_inv(ctx):
             cases += [w(c) for c in typed_text_cases(rng, d)]
         if len(d) < 600:
             cases.append(w(trops_case(rng, d)))
+    for d in (b"", b" ", b"\n", b"#c", b"a", b"a=", b'"', b"{", b"}"):
+        for cap in ("slice", 1, 8):
+            for ops in ("r", "r,r,T", "n,r,T", "k,r", "u,r", "b1,r,T"):
+                cases.append(w("c05.trops\t%s\t-\t%s\t%s" % (cap, hexs(d), ops)))
     # ---- binary inputs: API walk, typed targets
     bins = C05_extra.bin_inputs(rng, ctx.scale(500, 8000), [])
     bins += [B.enc_seq(B.random_tokens(rng, rng.choice([5, 9, 14, 25, 40]))) for _ in range(ctx.scale(500, 6000))]
@@ -229,9 +281,15 @@ def run_inv(ctx):
     for d in bins:
         cases.append(w("c05.binapi\t" + hexs(d)))
         cases += [w(c) for c in typed_bin_cases(rng, d)]
+    # ---- the text writer's call API: any call history (well formed or not) x adversarial byte payloads x any indent configuration
+    wc = [w(writer_calls_case(rng)) for _ in range(ctx.scale(1500, 15000))]
+    impl, _ = ctx.correspond("inv_writer_calls", wc, nontrivial=lambda c, i: " " in i and not i.startswith("- "))
+    judge(ctx, "release", wc, impl)
+    cases += wc
     for prof in ("release", "debug"):
-        impl, _ = ctx.correspond("inventory_" + prof, cases, nontrivial=lambda c, i: i.startswith("OK") or not (i.startswith("ERR") or i in ("NOKIND", "none")), profile=prof, model=False)
-        judge(ctx, prof, cases, impl)
+        r = guarded(ctx, "inventory_" + prof, cases, prof, nontrivial=lambda c, i: i.startswith("OK") or not (i.startswith("ERR") or i in ("NOKIND", "none")), model=False)
+        if r is not None:
+            judge(ctx, prof, cases, r[0])
 
     # ---- two-phase: the accepted adversarial inputs through the modelled DOM / JSON kinds on every node
     small = [d for d in texts if len(d) < 400]
@@ -245,6 +303,22 @@ def run_inv(ctx):
         if mod[base + k] != "0" and impl[base + k] == "0":
             ctx.fail("tape-not-wf", "a tape the parser returns for an adversarial input violates TapeWf.tape_wf (clause %s): the DOM / JSON / write_tape "
                      "no-crash theorems do not apply to it" % mod[base + k], [c], [impl[base + k]], "0")
+    # the side condition of the write_tape theorems (Props/C05_wtape.v: C05_write_tape_parsed_nocrash_partial) on every real tape,
+    # by the extracted WriteTapeSide.no_param_valuesb AND by an independent walk over the real DOM readers
+    more = [bytes(rng.choice(b'[]!{}= ab') for _ in range(rng.randrange(3, 14))) for _ in range(ctx.scale(2500, 30000))]
+    frag = [b"[[x] y ]", b"[[!x] y ]", b"[[x] a=b ]", b"a={", b"}", b"a=", b"b", b"{", b" ", b"[[", b"] ", b"1 2", b"c={ d }", b"e=f"]
+    more += [b" ".join(rng.choice(frag) for _ in range(rng.randrange(1, 7))) for _ in range(ctx.scale(1500, 20000))]
+    parsed_more = C17.parse_docs(ctx, more, stream="inv_parse_params")
+    ncases = ["c05.npv\t%s\t%s" % (hexs(d), tape) for (d, tape, toks) in parsed + parsed_more]
+    ctx.count("npv_tapes", len(ncases))
+    ctx.count("npv_tapes_with_parameter_tokens", sum(1 for (d, tape, toks) in parsed + parsed_more if any(k[:2] in ("P:", "N:") for k in toks)))
+    impl, mod = ctx.correspond("inv_write_tape_side", ncases, nontrivial=lambda c, i: " P:" in c or " N:" in c or "\tP:" in c or "\tN:" in c)
+    base = len(impl) - len(ncases)
+    for k, c in enumerate(ncases):
+        if impl[base + k] != "1" or mod[base + k] != "1":
+            ctx.fail("param-in-value-position", "a tape the parser returns has a Parameter / UndefinedParameter token in value position (real DOM walk: %s, "
+                     "WriteTapeSide.no_param_valuesb: %s): write_value's unreachable!() is reachable and the hypothesis of "
+                     "C05_write_tape_parsed_nocrash_partial fails" % (impl[base + k], mod[base + k]), [c], [impl[base + k]], "1")
     dcases, meta = C17.dom_cases(parsed)
     jcases = []
     for (d, tape, toks) in parsed:
